@@ -1,4 +1,5 @@
 """C01 General DTL reconciliation is optimal; enumerator exactly-once; total."""
+import os
 import collections
 import math
 
@@ -54,7 +55,8 @@ class TableHook:
         import superrec2.compute.reconciliation as mod
 
         self.mod = mod
-        self.attached = hasattr(mod, "_compute_thl_table")
+        # VERIF_NO_L2=1 (self-test only): measure what the boundary monitors catch on their own
+        self.attached = hasattr(mod, "_compute_thl_table") and not os.environ.get("VERIF_NO_L2")
         self.last = None
         if self.attached:
             self.orig = mod._compute_thl_table
